@@ -181,7 +181,34 @@ theorem migrate_in_one_tx :
     (migrateOutsideTx.all (fun st => st.take 5 == ["CREATE", "TABLE", "IF", "NOT", "EXISTS"])) = true ∧
     ((migrateInTx.take 3).all (fun st => (st.drop 2).take 3 == ["IF", "NOT", "EXISTS"])) = true := by decide
 """),
- "C06": ("Ebu.Proofs.Shutdown", """/-- Shutdown returns nil (or the store's close error) only when no asynchronous work is in
+ "C06": ("Ebu.Proofs.Shutdown\nimport Ebu.Model.Inflight\nimport Ebu.Generated.Consts", """/-! ### the counter behind `Wait` (M2w) and what the CURRENT source does with its condition variable -/
+
+/-- the wake-up discipline of the source, read off `inflight.done` on every run -/
+def sourceWake : Ebu.Inflight.Wake :=
+  if Ebu.Generated.Consts.inflightDoneWake == "Broadcast" then .broadcast
+  else if Ebu.Generated.Consts.inflightDoneWake == "Signal" then .signal else .none
+
+/-- OBLIGATION on the current source: `done` broadcasts when the count reaches zero and `wait` re-checks
+the count in a loop -/
+theorem source_broadcasts : sourceWake = .broadcast ∧ Ebu.Generated.Consts.inflightWaitRechecks = true := by decide
+
+/-- hence, however many goroutines are in `Wait` at once and whatever the schedule, none of them stays parked
+on the condition variable while nothing is in flight (no lost wake-up) … -/
+theorem no_waiter_left_behind (ops : List Ebu.Inflight.Op) :
+    Ebu.Inflight.NoLostWakeup (Ebu.Inflight.run sourceWake ops) := by
+  rw [source_broadcasts.1]; exact Ebu.Inflight.broadcast_no_lost_wakeup ops
+
+/-- … and a `Wait` returns only in a state with nothing in flight -/
+theorem wait_returns_only_idle (s : Ebu.Inflight.St) (op : Ebu.Inflight.Op) (g : Nat)
+    (hnew : g ∈ (Ebu.Inflight.step sourceWake s op).returned) (hold : g ∉ s.returned) : s.n = 0 :=
+  Ebu.Inflight.returns_only_when_idle sourceWake s op g hnew hold
+
+/-- the obligation is not decoration: with `Signal` two waiters and one finishing handler leave a waiter parked -/
+theorem signal_would_lose_a_waiter :
+    ¬ Ebu.Inflight.NoLostWakeup (Ebu.Inflight.run .signal [.add, .wait 1, .wait 2, .done]) :=
+  Ebu.Inflight.signal_loses_wakeup
+
+/-- Shutdown returns nil (or the store's close error) only when no asynchronous work is in
 flight, and only then – exactly once – closes the store; when it returns the context's error it
 has not closed it -/
 theorem shutdown_spec (s s' : Ebu.Shutdown.S) (pick : Bool) (o : Ebu.Shutdown.Outcome)
@@ -195,7 +222,37 @@ theorem shutdown_blocks_iff (s : Ebu.Shutdown.S) (pick : Bool) :
     Ebu.Shutdown.shutdown s pick = none ↔ (s.inflight ≠ 0 ∧ s.cancelled = false) :=
   Ebu.Shutdown.shutdown_blocks_iff s pick
 """),
- "C09": ("Ebu.Props.C03", """/-- N publishes from any number of goroutines give N records with strictly increasing offsets
+ "C09": ("Ebu.Props.C03\nimport Ebu.Proofs.PersistConc", """/-! ### N publishers, every schedule (M2p, `Ebu/Model/PersistConc.lean`) -/
+
+/-- for any number of concurrent publishers and EVERY schedule: the offsets in the log are 1, 2, 3, … (distinct,
+strictly increasing in log order) and `lastOffset` is the last one handed out -/
+theorem concurrent_offsets_increasing (recs sched : List Nat) :
+    let s := Ebu.PersistConc.run recs sched
+    s.log.map (·.1) = List.range' 1 s.log.length ∧ s.lastOffset = s.log.length :=
+  Ebu.PersistConc.offsets_ok recs sched
+
+/-- … the log holds exactly one record per publish that has persisted (none lost, none twice), so N publishes that
+have all got past `persistEvent` give exactly N records -/
+theorem concurrent_one_record_per_publish (recs sched : List Nat) :
+    let s := Ebu.PersistConc.run recs sched
+    (s.log.map (·.2)).Perm (Ebu.PersistConc.persistedRecs s) ∧
+    ((∀ t ∈ s.threads, 0 < t.pc) → s.log.length = recs.length) := by
+  refine ⟨Ebu.PersistConc.log_ok recs sched, fun hall => ?_⟩
+  rw [Ebu.PersistConc.all_persisted_length recs sched hall, Ebu.PersistConc.threads_length]
+
+/-- … and the handlers of every publish run with that publish's record already readable from the log -/
+theorem concurrent_recorded_before_delivery (recs sched : List Nat) :
+    ∀ p ∈ (Ebu.PersistConc.run recs sched).seen, p.1 ∈ p.2.map (·.2) :=
+  (Ebu.PersistConc.seen_ok recs sched).1
+
+/-- the atomic persist step of M2p is what the CURRENT source does: `store.Append` and the update of `lastOffset`
+sit inside one `storeMu` critical section (fact table regenerated from persist.go on every run); without it two
+publishers can be handed the same offset (`Ebu.PersistConc.unlocked_duplicates_offsets`) -/
+theorem appends_serialised : Ebu.Locks.CallbacksOk Ebu.Generated.callbackFacts = true ∧
+    ((([0, 1, 0, 1].foldl Ebu.PersistConc.ustepAt { threads := [{ record := 7 }, { record := 8 }] }).log.map (·.1)) = [1, 1]) :=
+  ⟨Ebu.Props.C03.facts_callbacks_lock_free, Ebu.PersistConc.unlocked_duplicates_offsets⟩
+"""),
+ "C09-old": ("Ebu.Props.C03", """/-- N publishes from any number of goroutines give N records with strictly increasing offsets
 because `persistEvent` calls `store.Append` and updates `lastOffset` inside one `storeMu` critical
 section in the CURRENT source (fact table regenerated from persist.go on every run): appends are
 serialised, so the sequential theorem `offsets_increasing` applies to every interleaving -/
@@ -207,6 +264,11 @@ locked for Append) in the CURRENT source: concurrent appenders cannot interleave
 and "insert", so offsets increase in log order under every schedule -/
 theorem memory_store_locked : Ebu.Locks.Discipline Ebu.Generated.accessFacts = true :=
   Ebu.Props.C03.facts_discipline
+"""),
+ "C02": ("Ebu.Props.C03", """/-- the atomic subscribe / removal steps of M2 are what the CURRENT source does: every registry mutator looks up
+and updates `shard.handlers` inside one write-locked critical section (fact table regenerated on every run) -/
+theorem registry_steps_atomic : Ebu.Locks.RegistryOpsAtomic Ebu.Generated.accessFacts = true :=
+  Ebu.Props.C03.facts_registry_ops_atomic
 """),
  "C12": ("Ebu.Props.C03", """/-- the bus offset a live handler saves is written inside the `storeMu` critical section that
 also performs the append (CURRENT source), so it only ever increases; together with the
@@ -234,6 +296,7 @@ theorem default_batch_matches_source : effBatch 0 = Ebu.Generated.Consts.replayD
 }
 for extras in (EXTRAS, EXTRAS2):
     for prop, (imp, text) in extras.items():
+        if prop.endswith("-old"): continue
         if ONLY and prop not in ONLY: continue
         path = os.path.join(LEAN, "Ebu", "Props", prop + ".lean")
         src = open(path).read()
